@@ -413,7 +413,7 @@ def finish(ctx, traces_validated, rule=None, exhaustive=False, level="model_chec
         "coverage": cov, "assumptions": ctx.assumptions, "wall_s": round(time.time() - ctx.t0, 1),
         "violations": nviol,
     }
-    if not ctx.replay:   # a replay run re-examines one case; it does not describe the check's coverage
+    if not ctx.replay and not os.environ.get("VERIF_NO_EVIDENCE"):   # a replay run re-examines one case; it does not describe the check's coverage
         os.makedirs(os.path.join(VERIF, "evidence"), exist_ok=True)
         with open(os.path.join(VERIF, "evidence", ctx.prop + ".json"), "w") as fh:
             json.dump(ev, fh, indent=1, sort_keys=True)
